@@ -16,7 +16,7 @@ EXPLANATION = (
     "call or a Debug rendering; (err) every Error variant with a String payload is built from to_string() of a foreign error value or "
     "a constant. Not decided: what the back ends' own Debug / error Display implementations print (reviewed for the pinned versions: "
     "public components / framing only; trusted).")
-ASSUMPTIONS = ["ring / aws-lc-rs Debug impls of key pair objects print public components only", "pem / x509-parser / ring error Display texts do not quote payload bytes"]
+ASSUMPTIONS = ["ring / aws-lc-rs Debug impls of key pair objects print public components only", "ring KeyRejected / Unspecified and x509-parser error Display texts do not quote input bytes; pem::PemError does (InvalidHeader, MismatchedTags) and is modelled: InvalidHeader must be masked"]
 
 KP = "key_pair::KeyPair"
 READERS = {KP + "::serialize_der", KP + "::serialized_der", "<impl zeroize::Zeroize for key_pair::KeyPair>::zeroize"}
@@ -123,7 +123,7 @@ def taint(cfg, crate, rep):
             if not hit:
                 continue
             n_calls += 1
-            ok = any(x in callee for x in ALLOWED_CONSUMERS) or callee in crate.bodies and callee.startswith(("key_pair::KeyPair::from_", "ring_like::"))
+            ok = any(x in callee for x in ALLOWED_CONSUMERS) or callee in crate.bodies and callee.startswith(("key_pair::KeyPair::from_", "ring_like::")) or callee in I.inlined
             rep.ob("C19.taint", "%s|%s|%s" % (cfg, fn, callee), ok, "key material (loader input) is handed to a function that is not a parser / conversion / copy: it could end up in an error, log or rendering", found=callee, sp=node.get("sp"))
         # error values built in the loader must not carry the input
         for sv, node, f, c in I.structs:
@@ -160,6 +160,21 @@ def errs(cfg, crate, rep):
                 n += 1
                 ok = False
                 src = None
+                lv = _leaves(arg)
+                if len(lv) > 1:
+                    # a match / if selecting between texts: every alternative must be a constant or a foreign error's Display
+                    oks = []
+                    for x in lv:
+                        r = x.get("recv") if x["k"] == "MethodCall" and x["name"] == "to_string" else None
+                        while r is not None and r["k"] in ("AddrOf", "Unary"):
+                            r = r["e"]
+                        oks.append(r is not None and (r["k"] == "Lit" or any(k in r.get("ty", "") for k in ("KeyRejected", "PemError", "X509Error", "nom::Err", "asn1_rs::", "Unspecified"))))
+                    ok = all(oks)
+                    src = "%d alternatives" % len(lv)
+                    arg = {"k": "?"}
+                    if any("PemError" in (x.get("recv") or {}).get("ty", "") for x in lv if x["k"] == "MethodCall"):
+                        arg = {"k": "MethodCall", "name": "to_string", "recv": {"k": "Path", "ty": "pem::PemError"}}
+                        ok = False
                 if arg["k"] == "MethodCall" and arg["name"] == "to_string":
                     r = arg["recv"]
                     while r["k"] in ("AddrOf", "Unary"):
@@ -167,8 +182,38 @@ def errs(cfg, crate, rep):
                     rt = r.get("ty", "")
                     src = rt
                     ok = (r["k"] == "Lit") or any(x in rt for x in ("KeyRejected", "PemError", "X509Error", "nom::Err", "asn1_rs::", "Unspecified"))
+                    if ok and "PemError" in rt:
+                        # pem 3.0.x: Display of PemError::InvalidHeader echoes the offending input line. This conversion is
+                        # applied to key PEM (from_pem and friends), where that line is base64 of the private key: the
+                        # payload-carrying variant must be masked before the error is stringified.
+                        masked = False
+                        for m in common.hir_walk(b["hir"]):
+                            if m["k"] == "Match":
+                                for a in m["arms"]:
+                                    d = a["pat"].get("ctor_of") or a["pat"].get("def") or ""
+                                    if d.endswith("PemError::InvalidHeader"):
+                                        binds = [x for x in common.hir_walk(a["pat"]) if x.get("k") == "Binding"]
+                                        used = [x for x in common.hir_walk(a["body"]) if x.get("k") == "Path" and x.get("res") == "local" and any(x.get("hid") == bb.get("hid") for bb in binds)]
+                                        masked = not used
+                        rep.ob("C19.err", "%s|%s|%s|pem-error-display-masked" % (cfg, name, var), masked,
+                               "the Display text of pem::PemError is forwarded verbatim into Error::PemError, and this conversion is applied to private-key PEM: pem 3.0.x formats PemError::InvalidHeader with the offending input line, so loading a key PEM that contains a stray blank line (or a line with a colon) returns an error whose text contains base64 of the private key",
+                               expected="PemError::InvalidHeader(_) mapped to a text that does not include its payload", found="e.to_string() for every variant", sp=node.get("sp"))
                 rep.ob("C19.err", "%s|%s|%s" % (cfg, name, var), ok, "String payload of an error is the Display text of a foreign error (or a constant), never caller data", found=src, sp=node.get("sp"))
     rep.floor("C19.err", "string-carrying error constructions (%s)" % cfg, n, 3)
+
+
+def _leaves(e):
+    k = e.get("k")
+    if k == "Match":
+        out = []
+        for a in e["arms"]:
+            out += _leaves(a["body"])
+        return out
+    if k == "If":
+        return _leaves(e["t"]) + (_leaves(e["e"]) if e.get("e") else [])
+    if k == "Block" and e.get("expr") is not None:
+        return _leaves(e["expr"])
+    return [e]
 
 
 def cli(cfg, ctx, rep):
